@@ -24,6 +24,9 @@ def features(c):
         f.append("zip_load_shares_bus")
     if cfg["d0"]:
         f.append("dcline")
+    if cfg.get("alg", "nr") != "nr" and cfg["qtight"] and (cfg.get("g3") or cfg["d0"]) and any(cfg[n] for n in ("g0", "g1", "g2")):
+        # PYPOWER algorithms + enforced limits + a PV machine at the ext_grid bus (gen g3 or the dcline's from-side generator)
+        return "pypower_qlims_with_gen_at_slack_bus"
     return "+".join(f) if f else "plain"
 
 
